@@ -308,7 +308,8 @@ impl World {
                         }
                         if let Some(e) = conn.emitted_decoder.soft_errors.pop() {
                             conn.emitted_decoder.soft_errors.clear();
-                            if delta.emitted_decode_error.is_none() { delta.emitted_decode_error = Some(e); }
+                            let cause = if e.contains("password-without-username") { "CONNECT:password-without-username-311".to_string() } else { "subscription-identifier-encoded-as-u32".to_string() };
+                            if delta.emitted_decode_error.is_none() { delta.emitted_decode_error = Some(cause); }
                         }
                         let mut new_packets = Vec::new();
                         for f in framed {
